@@ -2,6 +2,7 @@ import OfxModel.Drv.SecId
 import OfxModel.Drv.Agg
 import OfxModel.Drv.Pipeline
 import OfxModel.Drv.Client
+import OfxModel.Drv.Compose
 import OfxModel.Drv.DateTime
 import OfxModel.Drv.Getattr
 import OfxModel.Drv.Header
@@ -11,5 +12,5 @@ import OfxModel.Drv.Serialize
 import OfxModel.Drv.Types
 
 namespace Ofx.Drv
-def handlers : List Handler := [SecId.handle, Ofx.Drv.Agg.handle, Ofx.Drv.Pipeline.handle, Ofx.Drv.Client.handle, Ofx.Drv.DateTime.handle, Ofx.Drv.Getattr.handle, Ofx.Drv.Header.handle, Ofx.Drv.Ofxget.handle, Ofx.Drv.Parser.handle, Ofx.Drv.Serialize.handle, Ofx.Drv.Types.handle]
+def handlers : List Handler := [SecId.handle, Ofx.Drv.Agg.handle, Ofx.Drv.Pipeline.handle, Ofx.Drv.Client.handle, Ofx.Drv.Compose.handle, Ofx.Drv.DateTime.handle, Ofx.Drv.Getattr.handle, Ofx.Drv.Header.handle, Ofx.Drv.Ofxget.handle, Ofx.Drv.Parser.handle, Ofx.Drv.Serialize.handle, Ofx.Drv.Types.handle]
 end Ofx.Drv
